@@ -70,6 +70,9 @@ pub fn rr(args: &[&str]) -> Option<Vec<String>> {
     } else {
         args[2].split(',').map(|x| x.parse().unwrap()).collect()
     };
+    // `h`: the peer keeps the connection open for 400 ms after the last piece (a malformed reply must be
+    // reported at once, not when the peer finally closes)
+    let hold = args.get(3).copied() == Some("h");
     let listener = TcpListener::bind("127.0.0.1:0").ok()?;
     let port = listener.local_addr().ok()?.port();
     let stream2 = stream.clone();
@@ -101,11 +104,15 @@ pub fn rr(args: &[&str]) -> Option<Vec<String>> {
                 prev = c;
             }
         }
+        if hold {
+            std::thread::sleep(std::time::Duration::from_millis(400));
+        }
         // close
     });
     let hello = lettre::transport::smtp::extension::ClientId::Domain("h".into());
     let mut results = Vec::new();
     let max = 64;
+    let mut last_ms = 0u128;
     match mode {
         "s" => {
             let mut c = lettre::transport::smtp::client::SmtpConnection::connect(
@@ -117,7 +124,9 @@ pub fn rr(args: &[&str]) -> Option<Vec<String>> {
             )
             .ok()?;
             for _ in 0..max {
+                let t0 = std::time::Instant::now();
                 let r = c.read_response();
+                last_ms = t0.elapsed().as_millis();
                 let d = describe(&r);
                 let stop = d == "B";
                 results.push(d);
@@ -143,7 +152,15 @@ pub fn rr(args: &[&str]) -> Option<Vec<String>> {
                     .await
                     .ok()?;
                 for _ in 0..max {
-                    let r = c.read_response().await;
+                    let t0 = std::time::Instant::now();
+                    let r = match tokio::time::timeout(std::time::Duration::from_secs(3), c.read_response()).await {
+                        Ok(r) => r,
+                        Err(_) => {
+                            results.push("HANG".into());
+                            break;
+                        }
+                    };
+                    last_ms = t0.elapsed().as_millis();
                     let d = describe(&r);
                     let stop = d == "B";
                     results.push(d);
@@ -157,6 +174,9 @@ pub fn rr(args: &[&str]) -> Option<Vec<String>> {
         _ => return None,
     }
     server.join().ok()?;
+    if hold {
+        return Some(vec![results.join(";"), format!("late={}", (last_ms >= 250) as u8)]);
+    }
     Some(vec![results.join(";")])
 }
 
